@@ -181,6 +181,23 @@ fn flat_world(rng: &mut Rng, faults: bool, one_package: bool) -> RegWorld {
   }
   w.user[0].items.retain(|i| i.text.starts_with("jsr:"));
   w.passthrough = false;
+  // a lockfile's jsr entries: requirements already mapped to versions before the build starts
+  if rng.chance(1, 3) {
+    let vs = sorted_versions();
+    for _ in 0..1 + rng.below(3) {
+      let p = &w.pkgs[rng.below(w.pkgs.len())];
+      let req = REQS[rng.below(REQS.len())].trim_start_matches('@').to_string();
+      let Ok(vr) = deno_semver::VersionReq::parse_from_specifier(&req) else { continue };
+      let have: Vec<&Version> = vs.iter().filter(|v| vr.matches(v) && p.versions.iter().any(|pv| pv.version == v.to_string())).collect();
+      if have.is_empty() {
+        continue;
+      }
+      let v = have[rng.below(have.len())].to_string();
+      if !w.seeds.iter().any(|(n, r, _)| *n == p.name && *r == req) {
+        w.seeds.push((p.name.clone(), req, v));
+      }
+    }
+  }
   // file faults are irrelevant here (only metadata is modelled)
   w
 }
@@ -247,6 +264,15 @@ fn pass_case(w: &RegWorld, two_step: bool, report: &mut Report) -> Option<Vec<Pa
     let n = intern.name(&r.req().name);
     let q = intern.req(&r.req().version_req);
     items.push(format!("({} {} {} {})", sid, n, q, satom(&r.export_name())));
+  }
+  let mut seed_sexp: Vec<String> = vec![];
+  for (name, req, ver) in &w.seeds {
+    let (Ok(vr), Ok(v)) = (VersionReq::parse_from_specifier(req), Version::parse_standard(ver)) else { continue };
+    let n = intern.name(name);
+    let q = intern.req(&vr);
+    if let Some(vi) = vid(&vs, &v) {
+      seed_sexp.push(format!("({} {} {})", n, q, vi));
+    }
   }
   let restart_at = restarted(w, &built);
   let did_restart = restart_at.is_some();
@@ -319,7 +345,7 @@ fn pass_case(w: &RegWorld, two_step: bool, report: &mut Report) -> Option<Vec<Pa
     let names: Vec<String> = intern.names.iter().enumerate().map(|(i, n)| format!("({} {})", i, satom(n))).collect();
     let vnames: Vec<String> = vs.iter().enumerate().map(|(i, v)| format!("({} {})", i, satom(&v.to_string()))).collect();
     format!(
-      "(jsr-pass {} (pkgs {}) (fresh {}) (vers {}) (sats {}) (cutoffs {}) (cached {}) {} {} (names {} {}) (vernames {}) (seed) (items {}))",
+      "(jsr-pass {} (pkgs {}) (fresh {}) (vers {}) (sats {}) (cutoffs {}) (cached {}) {} {} (names {} {}) (vernames {}) (seed {}) (items {}))",
       mode,
       pkgs.join(" "),
       fresh.join(" "),
@@ -332,6 +358,7 @@ fn pass_case(w: &RegWorld, two_step: bool, report: &mut Report) -> Option<Vec<Pa
       satom(REG),
       names.join(" "),
       vnames.join(" "),
+      seed_sexp.join(" "),
       items.join(" ")
     )
   };
@@ -696,6 +723,15 @@ pub fn selection_oracle(w: &RegWorld, built: &Built, loader: &RegLoader, report:
   if w.pkgs.iter().all(|p| p.stale.is_none()) {
     let from = restarted(w, built).unwrap_or(0);
     let mut selected: BTreeMap<String, Vec<Version>> = BTreeMap::new();
+    // versions the lockfile seeded the graph with count as selected from the start
+    for (name, _, ver) in &w.seeds {
+      if let Ok(v) = Version::parse_standard(ver) {
+        let e = selected.entry(name.clone()).or_default();
+        if !e.contains(&v) {
+          e.push(v);
+        }
+      }
+    }
     let mut yanked_used: BTreeSet<String> = BTreeSet::new();
     let cache_view = if restarted(w, built).is_some() { CacheSetting::Reload } else { CacheSetting::Use };
     for (at, req, nv) in &built.resolved {
